@@ -13,7 +13,15 @@ for f in sys.argv[1:]:
         k=p['knobs']
         print(' knobs', {x:v for x,v in k.items() if x not in('faults',)}, 'hints_auto', p.get('hints_auto'))
         print(' faults', k['faults'])
-        for q in p['questions']: print(' Q',q)
+        for q in p.get('questions',[]): print(' Q',q)
+        # server plans (C09, C19)
+        for f in p.get('files',[]): print(' FILE',f['path'], len(f['content']),'bytes')
+        if 'args' in p: print(' args',p['args'])
+        for s in p.get('operator',[]):
+            a=s['action']; kind=a if isinstance(a,str) else list(a.keys())[0]
+            det='' if isinstance(a,str) else {k:(v if k!='content' else '%d bytes'%len(v)) for k,v in a[kind].items()}
+            print('  OP @%dms'%s['at_ms'], kind, det)
+        for m in p.get('messages',[]): print('  MSG @%dms'%m['at_ms'], m['proto'], m['what'], 'prefix',m.get('prefix'),'cut',m.get('cut_at'),'piece',m.get('piece'),'after',m.get('after'),'listen',m.get('listen_ms'))
     else:
         print(json.dumps(p)[:3000])
     print(json.dumps(d['violation'],indent=1)[:4000])
